@@ -64,7 +64,7 @@ fn nid(n: Option<Node>) -> String {
 }
 
 fn cur_state(c: &TreeCursor) -> String {
-    format!("{:x} {} {} {}", c.node().id(), c.depth(), c.descendant_index(), c.field_id().map(|f| f.get()).unwrap_or(0))
+    format!("{:x} {} {} {} {}", c.node().id(), c.node().kind_id(), c.depth(), c.descendant_index(), c.field_id().map(|f| f.get()).unwrap_or(0))
 }
 
 struct Stats {
@@ -89,6 +89,40 @@ fn emit_node_queries(out: &mut impl Write, st: &mut Stats, tree: &Tree, text_len
     q(format!("ps {}", nid(n.prev_sibling())));
     q(format!("nns {}", nid(n.next_named_sibling())));
     q(format!("pns {}", nid(n.prev_named_sibling())));
+    // identity of the node: kind (alias-aware, public) vs grammar symbol (the subtree's own), names, flags, states
+    q(format!("kind {} {} {} {}", n.kind_id(), n.grammar_id(), hex(n.kind().as_bytes()), hex(n.grammar_name().as_bytes())));
+    q(format!(
+        "fl {}",
+        (n.is_named() as u32) | (n.is_extra() as u32) << 1 | (n.is_missing() as u32) << 2 | (n.is_error() as u32) << 3 | (n.has_changes() as u32) << 4
+    ));
+    {
+        let ps = n.parse_state();
+        let lang = n.language();
+        let want = if ps == u16::MAX { u16::MAX } else { lang.next_state(ps, n.grammar_id()) };
+        q(format!("pst {} {}", ps, (n.next_parse_state() == want) as u8));
+        q(format!("rng {} {} {} {} {} {}", n.byte_range().start, n.byte_range().end, n.range().start_point.row, n.range().start_point.column, n.range().end_point.row, n.range().end_point.column));
+    }
+    // the cursor-backed child iterators of the Rust binding
+    {
+        let mut ic = tree.root_node().walk();
+        let ids: Vec<String> = n.children(&mut ic).map(|x| format!("{:x}", x.id())).collect();
+        q(format!("chi {}", if ids.is_empty() { "-".to_string() } else { ids.join(",") }));
+        let ids: Vec<String> = n.named_children(&mut ic).map(|x| format!("{:x}", x.id())).collect();
+        q(format!("nchi {}", if ids.is_empty() { "-".to_string() } else { ids.join(",") }));
+        if n.child_count() > 0 {
+            let lang = n.language();
+            for f in 1..=field_count {
+                let fid = std::num::NonZeroU16::new(f as u16).unwrap();
+                let ids: Vec<String> = n.children_by_field_id(fid, &mut ic).map(|x| format!("{:x}", x.id())).collect();
+                q(format!("cbfi {} {}", f, if ids.is_empty() { "-".to_string() } else { ids.join(",") }));
+                if let Some(name) = lang.field_name_for_id(f as u16) {
+                    let ids: Vec<String> = n.children_by_field_name(name, &mut ic).map(|x| format!("{:x}", x.id())).collect();
+                    q(format!("cbni {} {}", f, if ids.is_empty() { "-".to_string() } else { ids.join(",") }));
+                    q(format!("cbn {} {}", f, nid(n.child_by_field_name(name))));
+                }
+            }
+        }
+    }
     // children by index: all of them for small fan-out, otherwise first/last 8 and every 37th
     let pick = |k: u32, total: u32| heavy || total <= 24 || k < 8 || k + 8 >= total || k % 37 == 0;
     for i in 0..=cc {
@@ -166,6 +200,7 @@ fn emit_node_queries(out: &mut impl Write, st: &mut Stats, tree: &Tree, text_len
         q(format!("dbr r {} {} {}", s, e, nid(root.descendant_for_byte_range(s, e))));
         q(format!("ndbr r {} {} {}", s, e, nid(root.named_descendant_for_byte_range(s, e))));
         q(format!("dbr s {} {} {}", s, e, nid(n.descendant_for_byte_range(s, e))));
+        q(format!("ndbr s {} {} {}", s, e, nid(n.named_descendant_for_byte_range(s, e))));
     }
     // point ranges: the node's own corners
     let sp = n.start_position();
@@ -182,6 +217,7 @@ fn emit_node_queries(out: &mut impl Write, st: &mut Stats, tree: &Tree, text_len
         q(format!("dpr r {} {} {} {} {}", s.row, s.column, e.row, e.column, nid(root.descendant_for_point_range(s, e))));
         q(format!("ndpr r {} {} {} {} {}", s.row, s.column, e.row, e.column, nid(root.named_descendant_for_point_range(s, e))));
         q(format!("dpr s {} {} {} {} {}", s.row, s.column, e.row, e.column, nid(n.descendant_for_point_range(s, e))));
+        q(format!("ndpr s {} {} {} {} {}", s.row, s.column, e.row, e.column, nid(n.named_descendant_for_point_range(s, e))));
     }
     // child_with_descendant: receiver = every ancestor on a sample basis: root, parent, self
     if idx > 0 {
@@ -200,6 +236,9 @@ fn emit_node_queries(out: &mut impl Write, st: &mut Stats, tree: &Tree, text_len
     let mut c = root.walk();
     c.goto_descendant(idx);
     q(format!("gd {}", cur_state(&c)));
+    q(format!("gdn {}", c.field_name().map(|f| hex(f.as_bytes())).unwrap_or_else(|| "-".into())));
+    // a COPY of the positioned cursor must be the same cursor (ts_tree_cursor_copy)
+    q(format!("gdc {}", cur_state(&c.clone())));
     for (name, mv) in [("cfc", 0), ("clc", 1), ("cns", 2), ("cps", 3), ("cpa", 4)] {
         let mut d = c.clone();
         let ok = match mv {
@@ -244,6 +283,30 @@ fn emit_node_queries(out: &mut impl Write, st: &mut Stats, tree: &Tree, text_len
     // ---- cursor rooted at this node
     let w = n.walk();
     q(format!("w0 {}", cur_state(&w)));
+    // copy / reset_to / reset of a cursor rooted at this (possibly aliased) node: the root keeps its alias
+    q(format!("wcl {}", cur_state(&w.clone())));
+    {
+        let mut x = root.walk();
+        x.goto_first_child();
+        x.reset_to(&w);
+        let s0 = cur_state(&x);
+        let ok = x.goto_first_child();
+        let s1 = cur_state(&x);
+        let okp = x.goto_parent();
+        q(format!("wrt {} {} {} {} {}", s0, ok as u8, s1, okp as u8, cur_state(&x)));
+        let mut y = root.walk();
+        y.goto_first_child();
+        y.reset(n);
+        q(format!("wrs {}", cur_state(&y)));
+        // reset_to a cursor that stands deeper (last child of this node), then climb back
+        let mut deep = w.clone();
+        let okd = deep.goto_last_child();
+        let mut z = root.walk();
+        z.reset_to(&deep);
+        let s2 = cur_state(&z);
+        let okz = z.goto_parent();
+        q(format!("wrd {} {} {} {}", okd as u8, s2, okz as u8, cur_state(&z)));
+    }
     for (name, mv) in [("wfc", 0), ("wlc", 1), ("wns", 2), ("wps", 3), ("wpa", 4)] {
         let mut d = w.clone();
         let ok = match mv {
@@ -345,6 +408,33 @@ fn emit_case(out: &mut impl Write, st: &mut Stats, cid: &str, lc: &LangCtx, pars
             }
             if !c.goto_parent() {
                 break 'walk;
+            }
+        }
+    }
+    {
+        // ts_tree_root_node_with_offset: every position is shifted by the offset (Length addition)
+        let off_b = 7usize;
+        let off_p = Point { row: 2, column: 3 };
+        let rn = tree.root_node_with_offset(off_b, off_p);
+        let mut oc = rn.walk();
+        let mut k = 0usize;
+        'ow: loop {
+            let x = oc.node();
+            writeln!(out, "rwo {} {:x} {} {} {} {} {} {}", k, x.id(), x.start_byte(), x.start_position().row, x.start_position().column, x.end_byte(), x.end_position().row, x.end_position().column).unwrap();
+            k += 1;
+            if k >= 40 {
+                break;
+            }
+            if oc.goto_first_child() {
+                continue;
+            }
+            loop {
+                if oc.goto_next_sibling() {
+                    break;
+                }
+                if !oc.goto_parent() {
+                    break 'ow;
+                }
             }
         }
     }
